@@ -64,6 +64,18 @@ func run(c *vf.Ctx) {
 		x.Report(fmt.Sprintf("%s/%s/", m.Spec.Name, m.Name))
 		total++
 		c.Distinct(m.Spec.Name, m.Name)
+		// hash-symmetry check (DESIGN 2.3): the same model under different key material / salts must visit the
+		// same number of distinct canonical states (quick: payments alphabet only; thorough: every model).
+		if (!c.Quick() || (m.Name == "payments" && m.Spec.Name == "v2-only")) && !c.Expired() && c.NumViolations() == 0 {
+			x2 := chain.NewExplorer(c, m, "C01")
+			x2.Keys = chain.NewKeys(c.Seed + 7919)
+			x2.Run()
+			c.Count("symmetry_reruns", 1)
+			if x2.States.Load() != x.States.Load() && !c.Expired() {
+				c.HarnessError("hash-symmetry check failed for %s/%s: %d states with seed %d, %d with seed %d (the canonical key merges or splits states depending on hash values)",
+					m.Spec.Name, m.Name, x.States.Load(), c.Seed, x2.States.Load(), c.Seed+7919)
+			}
+		}
 	}
 	c.Set("models_run", total)
 	c.Sample(map[string]any{"network": "mixed", "trace": []string{"empty", "empty", "empty", "block[v1form(a=2,b=2,F=100) + v2sf(split=true)]", "empty", "revert(1)", "..."}})
